@@ -8,12 +8,28 @@ DRIVERS = ['C20']
 KNOWN_KEYS = ('stale-iterator-in-block', 'id-hash-collision', 'refund-lost-second-account')
 META = dict(
     level='proof',
-    technique='Lean 4 theorems about an executable model of MinerManager/RefundManager/miner executors; '
-              'model tied to the source by differential execution of the real executors (T-corr) and generated constant facts (T-gen)',
-    level_text='proof', level_note='',
-    trusted_base=['Lean 4 kernel'], assumptions=[],
-    rule='distinct op lines sent to both implementation and model whose answer is not bad-op',
-    explanation='',
+    technique='Lean 4 theorems (invariant + per-transaction refinement lemmas, all inputs, every key-hash/JSON codec) about an '
+              'executable model of MinerManager / RefundManager / the four miner executors as VMExecutor sequences them; model tied '
+              'to the source by differential execution of the real executors against the compiled model (T-corr) and by '
+              're-extracted constants/structural facts pinned by rfl theorems (T-gen)',
+    level_text='proof (partial where the code is defective: three recorded findings with machine-checked counterexamples)',
+    level_note='rejected_changes_only_fee, fee_moves_only_fee, totals_agree_total, stake_accounting_frame/apply/add/refund are general; '
+               'lookup_agree / totals_agree_count / one_miner_per_account hold at block boundaries only (in-block the iterator is stale: '
+               'counterexamples proved and replayed); stake and conservation clauses need key-family separation (Untouched), '
+               'stake < 2^53 and the refund list condition; block-end escrow moves are covered by T-corr and the searcher, not by a theorem',
+    trusted_base=['Lean 4 kernel (+ leanchecker in thorough)', 'gen/cmd/c20facts (go/ast extraction)', 'harness/cmd/c20 (Go harness, op protocol, error-class mapping)',
+                  'go-rangers AccountDB/trie/journal (state store under the executors; C02-C04)', 'encoding/json (codec hypotheses CodecId/RawOK)',
+                  'crypto/sha256 (only through the Untouched hypotheses; the driver runs its own SHA-256)', 'math/big Float (f64 rounding modelled, sampled)'],
+    assumptions=['chain config dev, heights >= 12: proposals 001-027 active except 025 (status slot, refund height = now+36000, fee 0.001)',
+                 'harness signs with the zero signature: empty miner ids fail recovery (fail:recover)',
+                 'account byte strings are not themselves valid miner JSON (TxOK)',
+                 'total token supply < 2^53 tokens, so float64 debit rounding and uint64 stake wrap are unreachable (probed: outside_hypothesis notes)',
+                 'minerNodeExecutor (type 7, EVM create2) and reward payouts are out of scope',
+                 'two escrow keys mapping to one address in one height (non 20-byte accounts) are not generated (Go map order)'],
+    rule='distinct op lines (transactions, block ends, full-state dumps) sent to both the real executors and the Lean model whose answer is not bad-op',
+    explanation='Every op line is executed by the real go-rangers executors on an in-memory AccountDB and by the compiled Lean model; after every '
+                'transaction and block end both print the whole observable state (both iterators, by-id and by-account lookups, totals, '
+                'balances, escrow, pending refunds). The theorems are about that same model.',
 )
 
 
